@@ -692,8 +692,14 @@ class BaseConnector:
                         await trace.send_connection_create_start()
                 proto = await self._create_connection(req, traces, timeout)
                 if traces:
-                    for trace in traces:
-                        await trace.send_connection_create_end()
+                    try:
+                        for trace in traces:
+                            await trace.send_connection_create_end()
+                    except BaseException:
+                        # The connection is established but not yet owned
+                        # by anybody else: close it or it would leak.
+                        proto.close()
+                        raise
             except BaseException:
                 self._release_acquired(key, placeholder)
                 raise
@@ -794,7 +800,7 @@ class BaseConnector:
                         try:
                             await trace.send_connection_reuseconn()
                         except BaseException:
-                            self._release_acquired(key, proto)
+                            self._release(key, proto, should_close=True)
                             raise
                 return Connection(self, key, proto, self._loop)
 
